@@ -42,7 +42,7 @@ SPECIAL = [0.0, -0.0, 5e-324, 2.2250738585072014e-308, 1e300, -1e300, 1e-300, 1.
 
 @st.composite
 def synthetic(draw):
-    n = draw(st.integers(2, 5))
+    n = draw(cards.ints(2, 5))
     grid = sorted(draw(st.lists(st.floats(1e-6, 0.99), min_size=n - 1, max_size=n - 1, unique=True))) + [1.0]
     obs = {}
     names = draw(st.lists(st.sampled_from(["F2_total", "FL_light", "F3_charm", "g1_total", "XSHERANC_total", "XSCHORUSCC_charm", "F1_light"]), unique=True, min_size=1, max_size=3))
@@ -69,7 +69,7 @@ def synthetic(draw):
         "source": "synthetic",
         "grid": grid,
         "log": draw(st.booleans()),
-        "degree": draw(st.integers(1, n - 1)),
+        "degree": draw(cards.ints(1, n - 1)),
         "projectilePID": draw(st.sampled_from([11, -11, 12, -12])),
         "results": obs,
         "theory": {"PTO": draw(st.integers(0, 3)), "FNS": "ZM-VFNS", "mc": draw(st.floats(1, 2)), "CKM": cards.CKM_STR, "flag": draw(st.booleans()), "none": None},
